@@ -261,3 +261,116 @@ Proof.
   change (1 + 0) with 1 in H2. rewrite H2. cbn [bind repeat].
   rewrite !app_nil_r. reflexivity.
 Qed.
+
+(* ------------------------------------------------------------------ the index kernel *)
+(* entry selected by index i after numba's wrap of a negative index *)
+Definition cell_at (cells:list cell) (i:Z) : cell := nthd [] cells (norm cells i).
+Definition valid_ix (cells:list cell) (i:Z) : Prop := - len cells <= i < len cells.
+
+Lemma split_at (cells:list cell) j : 0 <= j < len cells ->
+  exists pre post, cells = pre ++ nthd [] cells j :: post /\ len pre = j.
+Proof.
+  intros H. unfold len in H.
+  destruct (nth_split cells (@nil Z) (n:=Z.to_nat j)) as [pre [post [E L]]]; [lia|].
+  exists pre, post. split; [exact E|]. unfold len. lia.
+Qed.
+
+Lemma norm_range cells i : valid_ix cells i -> 0 <= norm cells i < len cells.
+Proof. unfold valid_ix, norm. destruct (i <? 0) eqn:E; lia. Qed.
+
+Lemma index_pass1_ok cells : forall ix count total,
+  Forall (valid_ix cells) ix ->
+  index_pass1 ix (slice (psums (lens cells)) 0 (len (psums (lens cells)) - 1))
+              (skipn 1 (psums (lens cells))) count total
+  = Ok (count + len (map (cell_at cells) ix), total + off (map (cell_at cells) ix)).
+Proof.
+  induction ix as [|i t IH]; intros count total Hv; cbn [index_pass1 map].
+  - cbn. f_equal. f_equal; lia.
+  - pose proof (Forall_inv Hv) as Hi. pose proof (Forall_inv_tail Hv) as Ht.
+    destruct (split_at cells (norm cells i) (norm_range cells i Hi)) as [pre [post [E L]]].
+    rewrite (row_len_ok cells true pre _ post i E (eq_sym L)). cbn [bind].
+    rewrite (IH _ _ Ht). f_equal. rewrite len_cons, off_cons. fold (cell_at cells i). f_equal; lia.
+Qed.
+
+Lemma index_pass2_ok cells : forall ix sd z1 z2,
+  Forall (valid_ix cells) ix ->
+  index_pass2 ix (slice (psums (lens cells)) 0 (len (psums (lens cells)) - 1))
+              (skipn 1 (psums (lens cells))) (concat cells)
+    (1 + len sd, off sd,
+     psums (lens sd) ++ repeat 0 (length (map (cell_at cells) ix) + z1),
+     concat sd ++ repeat 0 (Z.to_nat (off (map (cell_at cells) ix)) + z2))
+  = Ok (1 + len (sd ++ map (cell_at cells) ix), off (sd ++ map (cell_at cells) ix),
+        psums (lens (sd ++ map (cell_at cells) ix)) ++ repeat 0 z1,
+        concat (sd ++ map (cell_at cells) ix) ++ repeat 0 z2).
+Proof.
+  induction ix as [|i t IH]; intros sd z1 z2 Hv; cbn [index_pass2 map].
+  - cbn [length off lens map sumZ Z.to_nat Nat.add]. rewrite app_nil_r. reflexivity.
+  - pose proof (Forall_inv Hv) as Hi. pose proof (Forall_inv_tail Hv) as Ht.
+    destruct (split_at cells (norm cells i) (norm_range cells i Hi)) as [pre [post [E L]]].
+    fold (cell_at cells i) in E.
+    set (c := cell_at cells i) in *. set (sr := map (cell_at cells) t).
+    replace (length (c :: sr) + z1)%nat with (S (length sr + z1)) by (cbn; lia).
+    replace (Z.to_nat (off (c :: sr)) + z2)%nat with (Z.to_nat (len c) + (Z.to_nat (off sr) + z2))%nat
+      by (rewrite off_cons; pose proof (len_nonneg c); pose proof (off_nonneg sr); lia).
+    rewrite (copy_row_ok cells true pre c post i sd _ _ E (eq_sym L)). cbn [bind].
+    unfold sr. rewrite (IH (sd ++ [c]) z1 z2 Ht). rewrite <- !app_assoc. reflexivity.
+Qed.
+
+Theorem index_indexed_correct cells ix :
+  Forall (valid_ix cells) ix ->
+  apply_indices_to_index_values ix (psums (lens cells)) (concat cells)
+  = Ok (enc (map (cell_at cells) ix)).
+Proof.
+  intros Hv. unfold apply_indices_to_index_values.
+  rewrite (index_pass1_ok cells ix 0 0 Hv). cbn [bind].
+  set (sel := map (cell_at cells) ix) in *.
+  pose proof (off_nonneg sel) as Ho. pose proof (len_nonneg sel) as Hs.
+  replace (0 + off sel <? 0) with false by (symmetry; apply Z.ltb_ge; lia).
+  unfold zeros.
+  replace (Z.to_nat (0 + len sel + 1)) with (S (length sel)) by (unfold len; lia).
+  cbn [repeat]. unfold set. cbn [Z.ltb Z.compare Z.to_nat set_nat bind].
+  pose proof (index_pass2_ok cells ix [] 0%nat 0%nat Hv) as H2.
+  fold sel in H2. change (len (@nil (list Z))) with 0 in H2.
+  cbn [off lens map sumZ psums psums_from concat app] in H2.
+  rewrite !Nat.add_0_r in H2. replace (0 + off sel) with (off sel) by lia.
+  change (1 + 0) with 1 in H2. rewrite H2. cbn [bind repeat].
+  rewrite !app_nil_r. reflexivity.
+Qed.
+
+(* for the index arrays the property quantifies over (entries in [0,n)) this is the plain gather *)
+Lemma cell_at_gather cells ix :
+  in_range (len cells) ix = true -> map (cell_at cells) ix = gather [] cells ix.
+Proof.
+  intros H. unfold gather. apply map_ext_in. intros i Hi. unfold in_range in H.
+  rewrite forallb_forall in H. specialize (H i Hi). unfold cell_at, norm.
+  destruct (i <? 0) eqn:E; [lia|reflexivity].
+Qed.
+
+Lemma in_range_valid cells ix : in_range (len cells) ix = true -> Forall (valid_ix cells) ix.
+Proof.
+  intros H. apply Forall_forall. intros i Hi. unfold in_range in H. rewrite forallb_forall in H.
+  specialize (H i Hi). unfold valid_ix. lia.
+Qed.
+
+(* a filter entry that is set beyond the last row makes the kernel read out of bounds *)
+Theorem filter_too_long_oob cells flt_ok :
+  length flt_ok = length cells ->
+  forall tail, apply_filter_to_index_values (flt_ok ++ true :: tail) (psums (lens cells)) (concat cells) = OOB 2.
+Proof.
+  intros Hl tail. unfold apply_filter_to_index_values.
+  assert (H : forall flt pre rest count total, cells = pre ++ rest -> length flt = length rest ->
+            filter_pass1 (flt ++ true :: tail) (len pre)
+              (slice (psums (lens cells)) 0 (len (psums (lens cells)) - 1)) (skipn 1 (psums (lens cells)))
+              count total = OOB 2).
+  { induction flt as [|b t IH]; intros pre rest count total E Hr.
+    - destruct rest; [|discriminate]. rewrite app_nil_r in E. subst pre. cbn [app filter_pass1].
+      unfold row_len. rewrite get_oob; [reflexivity|]. rewrite len_next. lia.
+    - destruct rest as [|c rest']; [discriminate|].
+      assert (E' : cells = (pre ++ [c]) ++ rest') by (rewrite <- app_assoc; exact E).
+      cbn [app filter_pass1]. rewrite <- (len_snoc pre c). destruct b.
+      + rewrite (row_len_ok cells false pre c rest' (len pre) E eq_refl). cbn [bind].
+        apply (IH _ _ _ _ E'). cbn in Hr; lia.
+      + apply (IH _ _ _ _ E'). cbn in Hr; lia. }
+  pose proof (H flt_ok [] cells 0 0 eq_refl Hl) as H1. change (len (@nil (list Z))) with 0 in H1.
+  rewrite H1. reflexivity.
+Qed.
